@@ -414,6 +414,7 @@ hawk_oow_t hawk_arr_delete (hawk_arr_t* arr, hawk_oow_t index, hawk_oow_t count)
 
 	if (index >= arr->size) return 0;
 	if (count > arr->size - index) count = arr->size - index;
+	if (count <= 0) return 0;
 
 	i = index;
 
